@@ -140,13 +140,48 @@ func stratifiedSample(cases []pipebed.Case, max int, rng *rand.Rand) []pipebed.C
 
 	var out []pipebed.Case
 
+	// first a quota per coarse class, so that the short paths (no rule, encoded slash) and the
+	// all-steps-succeed paths of every entry point are always there
+	coarse := func(c pipebed.Case) string {
+		allOK := true
+
+		for _, l := range [][]pipebed.Step{c.Authn, c.Handlers, c.Finalizers} {
+			for _, st := range l {
+				if fmt.Sprint(st.Out[0]) != "ok" || (st.Cond != "none" && st.Cond != "true") {
+					allOK = false
+				}
+			}
+		}
+
+		return fmt.Sprintf("%s|%s|%v|%v", c.Entry, c.Find.Result, c.Find.Slash, allOK)
+	}
+
+	const quota = 60
+
+	taken := map[int]bool{}
+	perClass := map[string]int{}
+
+	for _, i := range rng.Perm(len(cases)) {
+		if k := coarse(cases[i]); perClass[k] < quota && len(out) < max/2 {
+			perClass[k]++
+			taken[i] = true
+
+			out = append(out, cases[i])
+		}
+	}
+
 	for round := 0; len(out) < max; round++ {
 		progressed := false
 
 		for _, k := range order {
 			if g := groups[k]; round < len(g) {
-				out = append(out, cases[g[round]])
 				progressed = true
+
+				if taken[g[round]] {
+					continue
+				}
+
+				out = append(out, cases[g[round]])
 
 				if len(out) >= max {
 					break
